@@ -56,11 +56,13 @@ def main(prop, tier, seed, replay):
     if rep is None:
         return 2
     if not replay:
-        for variant, script in spec.get("variants", {}).get(tier, []):
+        for v in spec.get("variants", {}).get(tier, []):
+            variant, script = v[0], v[1]
+            prefix = v[2] if len(v) > 2 else variant + ":"
             r2 = run_one(spec, prop, tier, seed, variant, script, deadline, [])
             if r2 is None:
                 return 2
-            merge(rep, r2, variant + ":")
+            merge(rep, r2, prefix)
     if replay:
         n = rep.get("violation_counts", {}).get(rj["site"], 0)
         print(("REPLAYED: site %s fails again (%d cases)" % (rj["site"], n)) if n else ("NOT REPRODUCED: site %s holds" % rj["site"]))
